@@ -1,12 +1,61 @@
 import Driver.Wire
-/- line-protocol handlers of this area; see docs/AGENT_GUIDE.md -/
+/- line-protocol handlers for operation histories (C06 C07 C14) -/
 namespace Drv
+open Bp
 
 structure OpsSt where
   dummy : Unit := ()
 
-def handleOps (st : OpsSt) (_wire : St) (_toks : List String) : Option (OpsSt × String) :=
-  let _ := st
-  none
+/-- parse one op; returns it and the remaining tokens -/
+def parseOp (S : Schema) : List String → Option (Op × List String)
+  | "set" :: i :: r => do
+    let i ← parseNat i
+    let (v, r') ← parseVal S r
+    some (.setattr i v, r')
+  | "get" :: i :: r => (parseNat i).map fun i => (.getattr i, r)
+  | "parse" :: h :: r => (parseHex h).map fun bs => (.parse bs, r)
+  | "fd" :: n :: r => do
+    let n ← parseNat n
+    let (kw, r') ← parseKw S n r []
+    some (.fromDict kw, r')
+  | "copy" :: r => some (.copy, r)
+  | "deepcopy" :: r => some (.deepcopy, r)
+  | "pickle" :: r => some (.pickle, r)
+  | "read" :: r => some (.readAll, r)
+  | "raw" :: r => some (.rawObs, r)
+  | _ => none
+
+partial def runOps (S : Schema) (m : Val) (toks : List String) (acc : List String) : Option (List String) :=
+  if toks.isEmpty then some acc.reverse else
+  match parseOp S toks with
+  | none => none
+  | some (op, rest) =>
+    match stepOp S m op with
+    | .ok m' => runOps S m' rest ((obsPVal S m' ++ " | " ++ showR toHex (dumpVal S m')) :: acc)
+    | .error e => runOps S m rest (("ERR " ++ errName e) :: acc)
+
+def handleOps (st : OpsSt) (wire : St) : List String → Option (OpsSt × String)
+  | "OBSP" :: sid :: rest => do
+    let S ← wire.schema sid
+    let (v, r) ← parseVal S rest
+    if !r.isEmpty then none else
+    some (st, obsPVal S v ++ " | " ++ showR toHex (dumpVal S v))
+  -- OPS sid <initial val> ; <op> <op> ...   (initial value and ops separated by the token ";")
+  | "OPS" :: sid :: rest => do
+    let S ← wire.schema sid
+    let (v, r) ← parseVal S rest
+    match r with
+    | ";" :: ops => (runOps S v ops []).map fun outs => (st, String.intercalate " ;; " outs)
+    | _ => none
+  -- FDC sid cls n (idx val)* : class-form from_dict
+  | "FDC" :: sid :: cls :: n :: rest => do
+    let S ← wire.schema sid
+    let cls ← parseNat cls
+    let n ← parseNat n
+    let (kw, r) ← parseKw S n rest []
+    if !r.isEmpty then none else
+    let v := fromDictCls S cls kw
+    some (st, obsPVal S v ++ " | " ++ showR toHex (dumpVal S v))
+  | _ => none
 
 end Drv
